@@ -35,7 +35,7 @@ pub enum Op {
     /// by-value conversion: 0 from_array/into_array, 1 From/Into, 2 tuple (N in 1..=12), 3 &[T;N] -> &GenericArray, 4 &mut [T;N] -> &mut GenericArray
     ByValue(u8),
     /// zero-sized `()` elements only: a slice with more elements than isize::MAX (legal for zero-sized types) offered to the six
-    /// reinterpretation forms; selector 0..4 = isize::MAX, isize::MAX + 1, usize::MAX - 1, usize::MAX
+    /// reinterpretation forms; selector 0..4 = isize::MAX, isize::MAX + 1, usize::MAX - 1, usize::MAX; 4..12 = N + 2^k (agreeing with N in the low bits)
     ReinterpretHugeUnit(u8, u8),
 }
 
@@ -141,7 +141,22 @@ where
 
 fn huge_unit_case<N: ArrayLength>(sel: u8, form: u8) -> Result<(), String> {
     let n = N::USIZE;
-    let l = [isize::MAX as usize, isize::MAX as usize + 1, usize::MAX - 1, usize::MAX][sel as usize % 4];
+    // 0..4: beyond isize::MAX; 4..: lengths that agree with N in their low 8 / 16 / 31 / 32 / 33 / 48 / 63 bits (a length
+    // comparison done in a narrower integer type accepts them)
+    let l = [
+        isize::MAX as usize,
+        isize::MAX as usize + 1,
+        usize::MAX - 1,
+        usize::MAX,
+        n + (1 << 8),
+        n + (1 << 16),
+        n + (1 << 31),
+        n + (1 << 32),
+        n + (3 << 32),
+        n + (1 << 33),
+        n + (1 << 48),
+        n + (1 << 63),
+    ][sel as usize % 12];
     // a slice of zero-sized elements occupies no memory whatever its length
     let base = core::ptr::NonNull::<()>::dangling().as_ptr();
     let src: &mut [()] = unsafe { core::slice::from_raw_parts_mut(base, l) };
@@ -387,7 +402,7 @@ pub fn main() {
                     g.push(Case { n, kind, op: Op::ByValue(via), salt: rnd() as u32 & 0xfffff });
                 }
                 if kind == Kind::Unit {
-                    for sel in 0..4u8 {
+                    for sel in 0..12u8 {
                         for form in 0..6u8 {
                             g.push(Case { n, kind, op: Op::ReinterpretHugeUnit(sel, form), salt: 0 });
                         }
@@ -433,7 +448,7 @@ pub fn main() {
             prop: PROP,
             level: "exploration",
             rule: "case = (N in the 36-length lattice (to 4096), element kind u8/u32/(u8,u16)/()/drop-tracked/72-byte [u64;9]/32-byte-aligned, operation, seeded values). Views: as_slice, Deref, AsRef/Borrow<[T]>, AsRef<[T;N]>, iter(), &GenericArray::into_iter and the seven mutable counterparts must each start at the array's address, have N elements in index order; a write through each of the 7 mutable views is read back through all others. \
-                   Reinterpretation: slices of length L in {0, 1, N-1, N, N+1, N+2, 2N, 2N+1, random} (and, for zero-sized elements, isize::MAX, isize::MAX+1, usize::MAX-1, usize::MAX) through from_slice, try_from_slice, from_mut_slice, try_from_mut_slice, TryFrom<&[T]>, TryFrom<&mut [T]>: panic / LengthError iff L != N, fallible forms never panic, success aliases the source (pointer equality; a wrongly accepted reference is never dereferenced). \
+                   Reinterpretation: slices of length L in {0, 1, N-1, N, N+1, N+2, 2N, 2N+1, random} (and, for zero-sized elements, isize::MAX, isize::MAX+1, usize::MAX-1, usize::MAX and N + 2^k for k in {8, 16, 31, 32, 33, 48, 63}, N + 3*2^32) through from_slice, try_from_slice, from_mut_slice, try_from_mut_slice, TryFrom<&[T]>, TryFrom<&mut [T]>: panic / LengthError iff L != N, fallible forms never panic, success aliases the source (pointer equality; a wrongly accepted reference is never dereferenced). \
                    By value: from_array/into_array, From/Into, &[T;N] and &mut [T;N] conversions, all 12 tuple arities keep position i at i. \
                    non-trivial = L != N reinterpretation attempts and write-through cases with N > 0; distinct = distinct case tuples",
             exhaustive: false,
